@@ -324,6 +324,23 @@ func (m *Machine) binop(fr *frame, op token.Token, t types.Type, x, y Value) Val
 			return m.fl(ok, xv.F/yv.F, xv.W)
 		case token.LSS, token.LEQ, token.GTR, token.GEQ:
 			if !ok {
+				kx, ox, okx := m.floatKey(xv)
+				ky, oy, oky := m.floatKey(yv)
+				if okx && oky {
+					lt := func(ka, oa, kb, ob *smt.Term) *smt.Term {
+						return c.And(c.Not(oa), c.Or(ob, c.Slt(ka, kb)))
+					}
+					switch op {
+					case token.LSS:
+						return lt(kx, ox, ky, oy)
+					case token.LEQ:
+						return c.Not(lt(ky, oy, kx, ox))
+					case token.GTR:
+						return lt(ky, oy, kx, ox)
+					default:
+						return c.Not(lt(kx, ox, ky, oy))
+					}
+				}
 				m.unsupported("comparison of havoc float at %s", fr.site())
 			}
 			switch op {
@@ -369,6 +386,41 @@ func (m *Machine) binop(fr *frame, op token.Token, t types.Type, x, y Value) Val
 	panic(fmt.Sprintf("binop: %v on %T, %T", op, x, y))
 }
 
+// floatKey orders an integer-valued float (the float64 nearest to an int64
+// term, or an integral constant) exactly: key is the rounded value as a
+// signed 64-bit term, ov is true when the rounded value is +2^63 (key then
+// holds the amd64 "integer indefinite" bit pattern).
+func (m *Machine) floatKey(f Float) (key, ov *smt.Term, ok bool) {
+	c := m.C
+	var t *smt.Term
+	switch {
+	case f.OK:
+		if f.F != math.Trunc(f.F) || math.Abs(f.F) > 1<<62 {
+			return nil, nil, false
+		}
+		return m.i64(int64(f.F)), c.False, true
+	case f.Int != nil:
+		t = f.Int
+	default:
+		return nil, nil, false
+	}
+	neg := c.Slt(t, m.i64(0))
+	mag := c.Ite(neg, c.Sub(m.i64(0), t), t) // unsigned magnitude, up to 2^63
+	r := mag
+	for k := 1; k <= 11; k++ {
+		// magnitudes in [2^(52+k), 2^(53+k)) keep 53 bits: drop k bits, round half to even
+		q := c.LShr(mag, c.Const(uint64(k), 64))
+		rem := c.BAnd(mag, c.Const(uint64(1)<<uint(k)-1, 64))
+		half := c.Const(uint64(1)<<uint(k-1), 64)
+		odd := c.Eq(c.BAnd(q, c.Const(1, 64)), c.Const(1, 64))
+		up := c.Or(c.Ult(half, rem), c.And(c.Eq(rem, half), odd))
+		rk := c.Shl(c.Add(q, c.Ite(up, c.Const(1, 64), c.Const(0, 64))), c.Const(uint64(k), 64))
+		r = c.Ite(c.Ule(c.Const(uint64(1)<<uint(52+k), 64), mag), rk, r)
+	}
+	ov = c.And(c.Not(neg), c.Eq(r, c.Const(1<<63, 64)))
+	return c.Ite(neg, c.Sub(m.i64(0), r), r), ov, true
+}
+
 func (m *Machine) fl(ok bool, f float64, w int) Float {
 	if !ok {
 		return Float{W: w}
@@ -388,6 +440,11 @@ func (m *Machine) equals(fr *frame, t types.Type, x, y Value) *smt.Term {
 	case Float:
 		yv := y.(Float)
 		if !xv.OK || !yv.OK {
+			kx, ox, okx := m.floatKey(xv)
+			ky, oy, oky := m.floatKey(yv)
+			if okx && oky {
+				return c.And(c.Eq(kx, ky), c.Eq(ox, oy))
+			}
 			m.unsupported("equality of havoc float at %s", fr.site())
 		}
 		return c.Bool(xv.F == yv.F)
@@ -541,6 +598,13 @@ func (m *Machine) conv(fr *frame, tdst, tsrc types.Type, x Value) Value {
 						fw = 32
 					}
 					if !xt.IsConst() {
+						if fw == 64 && (xt.W < 64 || us.Info()&types.IsUnsigned == 0) {
+							// exact model: the float64 nearest to the integer
+							if us.Info()&types.IsUnsigned != 0 {
+								return Float{W: 64, Int: c.Zext(xt, 64)}
+							}
+							return Float{W: 64, Int: c.Sext(xt, 64)}
+						}
 						return Float{W: fw}
 					}
 					if us.Info()&types.IsUnsigned != 0 {
@@ -562,9 +626,19 @@ func (m *Machine) conv(fr *frame, tdst, tsrc types.Type, x Value) Value {
 					if udt.Kind() == types.Float32 {
 						fw = 32
 					}
+					if fw == 64 && !xf.OK && xf.Int != nil {
+						return xf
+					}
 					return m.fl(xf.OK, xf.F, fw)
 				case udt.Info()&types.IsInteger != 0:
 					w := intWidth(udt)
+					if !xf.OK && xf.Int != nil && w == 64 && udt.Info()&types.IsUnsigned == 0 {
+						// int64(float64(t)): t rounded to 53 significant bits; a
+						// result of 2^63 converts to the amd64 "integer indefinite"
+						// value, which is the low 64 bits of the key.
+						k, _, _ := m.floatKey(xf)
+						return k
+					}
 					if !xf.OK && xf.Pow10Of != nil && w == 64 && udt.Info()&types.IsUnsigned == 0 {
 						// int64(math.Pow10(e)) for symbolic e, abstracted: a fresh
 						// value that is 0 exactly when e < 0 (10^e < 1) and non-zero
